@@ -66,10 +66,17 @@ func ZZ_C14_roundtrip() {
 		m = ast.NewHSMSMessageSeparateReq(sid, sys)
 	}
 	b := m.ToBytes()
-	got, ok := Parse(append([]byte{}, b...))
+	buf := append([]byte{}, b...)
+	got, ok := Parse(buf)
 	rt.Assert(ok, "roundtrip:decodes")
 	rt.Assert(rt.BytesEq(got.ToBytes(), b), "roundtrip:equal-bytes")
 	rt.Assert(got.Type() == m.Type(), "roundtrip:equal-type")
+	// the decoded message stays equal to the message it was decoded from when the read buffer receives the next frame
+	for i := range buf {
+		buf[i] ^= rt.Byte(rt.N("next", i))
+	}
+	rt.Assert(rt.BytesEq(got.ToBytes(), b), "roundtrip:equal-bytes-after-buffer-reuse")
+	rt.Assert(got.Type() == m.Type(), "roundtrip:equal-type-after-buffer-reuse")
 	// a response built from the decoded request equals the one built from the original
 	if kind == 0 {
 		r1 := ast.NewHSMSMessageSelectRsp(m, 0).ToBytes()
